@@ -66,9 +66,9 @@ class C12(Prop):
         for i in range(n):
             if rng.random() < 0.5:
                 kind, v = self._mt(rng)
-                yield {'kind': 'mt6', 'sub': kind, 'mt': v, 'batched': rng.random() < 0.3}
+                yield {'kind': 'mt6', 'sub': kind, 'mt': v, 'batched': rng.random() < 0.3, 'nbatch': rng.choice([2, 3, 6, 6, 7])}
             else:
-                yield {'kind': 'tape', 'p': self._tape(rng), 'batched': rng.random() < 0.3}
+                yield {'kind': 'tape', 'p': self._tape(rng), 'batched': rng.random() < 0.3, 'nbatch': rng.choice([2, 3, 6, 6, 7])}
 
     # ------------------------------------------------------------------ implementation
     def _eig(self, m33):
@@ -81,7 +81,14 @@ class C12(Prop):
         if case['kind'] == 'mt6':
             v = np.matrix(case['mt']).T
             if case['batched']:
-                arr = np.hstack([np.array(v), np.array([[1.0], [0], [-1.0], [0], [0], [0]]) / math.sqrt(2)])
+                # batches of 2..8 columns (among them exactly 6, where a 6 x n array is square): the tensor first, fillers after it
+                nb = case.get('nbatch', 2)
+                rs = np.random.RandomState(nb * 7919 + 1)
+                fill = [np.array([[1.0], [0], [-1.0], [0], [0], [0]]) / math.sqrt(2)]
+                for _j in range(nb - 2):
+                    f = rs.randn(6, 1)
+                    fill.append(f / np.sqrt((f * f).sum()))
+                arr = np.hstack([np.array(v)] + fill)
                 g, d, k, h, s = cv.MT6_Tape(arr)
                 tape = [float(x[0]) for x in (g, d, k, h, s)]
             else:
@@ -96,7 +103,7 @@ class C12(Prop):
                     'oc': {kk: float(np.asarray(vv).flatten()[0]) for kk, vv in oc.items()}}
         p = case['p']
         if case['batched']:
-            arrs = [np.array([x, x]) for x in p]
+            arrs = [np.array([x] * case.get('nbatch', 2)) for x in p]
             mt = [float(x) for x in np.asarray(cv.Tape_MT6(*arrs))[:, 0]]
         else:
             mt = fl(cv.Tape_MT6(*[np.array([x]) for x in p]), np)
